@@ -363,32 +363,37 @@ def spec_value(kind: str, a: Mat, b: Mat, alpha: Scalar) -> Mat:
 def read_tables(idx: ProgramIndex, base: ClassInfo):
     """(first, second): torch function -> (method name, FunctionInfo), rebuilt from the decorators."""
     mod = base.module
-    # which table does each registration decorator write?
+    t_first, t_second = dispatch_table_names(idx, base)
+    tabs = {t_first, t_second}
+    # which table does each registration decorator write?  (a decorator factory = a module-level function with a nested
+    # def that stores into one of the two tables)
     deco_tables: Dict[str, List[str]] = {}
     for name, fn in mod.functions.items():
-        if not name.startswith("_implements"):
+        if not any(isinstance(x, (ast.FunctionDef, ast.Lambda)) for x in ast.walk(fn.node) if x is not fn.node):
+            continue
+        if not any(isinstance(x, ast.Name) and x.id in tabs for x in ast.walk(fn.node)):
             continue
         written = []
         # a loop variable / local alias standing for one or several tables: for tab in (_HANDLED_A, _HANDLED_B): tab[f] = name
         stands_for: Dict[str, List[str]] = {}
         for n in ast.walk(fn.node):
             if isinstance(n, ast.For) and isinstance(n.target, ast.Name) and isinstance(n.iter, (ast.Tuple, ast.List)):
-                stands_for[n.target.id] = [e.id for e in n.iter.elts if isinstance(e, ast.Name) and e.id.startswith("_HANDLED")]
+                stands_for[n.target.id] = [e.id for e in n.iter.elts if isinstance(e, ast.Name) and e.id in tabs]
             if isinstance(n, ast.Assign) and len(n.targets) == 1 and isinstance(n.targets[0], ast.Name) \
-                    and isinstance(n.value, ast.Name) and n.value.id.startswith("_HANDLED"):
+                    and isinstance(n.value, ast.Name) and n.value.id in tabs:
                 stands_for[n.targets[0].id] = [n.value.id]
         for n in ast.walk(fn.node):
             if isinstance(n, ast.Assign):
                 for t in n.targets:
                     if isinstance(t, ast.Subscript) and isinstance(t.value, ast.Name):
-                        if t.value.id.startswith("_HANDLED"):
+                        if t.value.id in tabs:
                             written.append(t.value.id)
                         elif t.value.id in stands_for:
                             written += stands_for[t.value.id]
             if isinstance(n, ast.Call) and isinstance(n.func, ast.Attribute) and n.func.attr in ("__setitem__", "update", "setdefault") \
                     and isinstance(n.func.value, ast.Name):
                 nm = n.func.value.id
-                written += [nm] if nm.startswith("_HANDLED") else stands_for.get(nm, [])
+                written += [nm] if nm in tabs else stands_for.get(nm, [])
         deco_tables[name] = written
     if len(deco_tables) < 3:
         raise AnalysisError(f"registration decorators not found (have {sorted(deco_tables)})")
@@ -404,9 +409,9 @@ def read_tables(idx: ProgramIndex, base: ClassInfo):
                         raise AnalysisError(f"{fn.qualname}: cannot read decorator argument {norm(d)}")
                     nreg += 1
                     for tab in deco_tables[d.func.id]:
-                        if tab == "_HANDLED_FUNCTIONS":
+                        if tab == t_first:
                             first[tf] = (name, fn)
-                        elif tab == "_HANDLED_SECOND_ARG_FUNCTIONS":
+                        elif tab == t_second:
                             second[tf] = (name, fn)
     # registrations on subclasses would write the same global tables
     for c in idx.operator_classes():
@@ -578,6 +583,8 @@ class _PE:
                 if isinstance(n.func, ast.Name) and n.func.id == "isinstance" and len(n.args) == 2 \
                         and norm(n.args[0]) == f"{pe.args_p}[0]" and norm(n.args[1]) == pe.cls_p:
                     return ast.Constant(value=pe.first)
+                if isinstance(n.func, ast.Lambda) and not n.keywords and not n.func.args.vararg and len(n.func.args.args) == len(n.args):
+                    return pe.subst(n.func.body, dict(zip([a_.arg for a_ in n.func.args.args], n.args)))
                 if isinstance(n.func, ast.Name) and n.func.id in pe.module.functions and not n.keywords:
                     h = pe.module.functions[n.func.id]
                     body = [x for x in h.body() if not (isinstance(x, ast.Expr) and isinstance(x.value, ast.Constant))]
@@ -590,6 +597,22 @@ class _PE:
                 self.generic_visit(n)
                 if isinstance(n.op, ast.Not) and isinstance(n.operand, ast.Constant):
                     return ast.Constant(value=not n.operand.value)
+                return n
+
+            def visit_Subscript(self, n):
+                self.generic_visit(n)
+                # TABLE[<constant>] for a module-level dict display: the entry itself
+                if isinstance(n.value, ast.Name) and isinstance(n.slice, ast.Constant) and n.value.id in pe.module.globals_ \
+                        and isinstance(pe.module.globals_[n.value.id], ast.Dict):
+                    dct = pe.module.globals_[n.value.id]
+                    for k_, v_ in zip(dct.keys, dct.values):
+                        if isinstance(k_, ast.Constant) and k_.value == n.slice.value and type(k_.value) is type(n.slice.value):
+                            import copy as _copy
+
+                            return pe.simplify(_copy.deepcopy(v_))
+                if isinstance(n.value, ast.Tuple) and isinstance(n.slice, ast.Constant) and isinstance(n.slice.value, int) \
+                        and -len(n.value.elts) <= n.slice.value < len(n.value.elts):
+                    return n.value.elts[n.slice.value]
                 return n
 
             def visit_IfExp(self, n):
@@ -635,6 +658,14 @@ class _PE:
             if isinstance(st, ast.Assign) and len(st.targets) == 1 and isinstance(st.targets[0], ast.Name):
                 env[st.targets[0].id] = self.subst(st.value, env)
                 continue
+            if isinstance(st, ast.Assign) and len(st.targets) == 1 and isinstance(st.targets[0], (ast.Tuple, ast.List)) \
+                    and all(isinstance(t_, ast.Name) for t_ in st.targets[0].elts):
+                v = self.subst(st.value, env)
+                if isinstance(v, (ast.Tuple, ast.List)) and len(v.elts) == len(st.targets[0].elts):
+                    for t_, e_ in zip(st.targets[0].elts, v.elts):
+                        env[t_.id] = e_
+                    continue
+                raise Unsupported(f"statement {short(st)}")
             if isinstance(st, ast.Return):
                 self.ret = self.subst(st.value, env) if st.value is not None else None
                 self.order.append("return")
@@ -684,6 +715,45 @@ def _disjuncts(e: ast.AST) -> List[ast.AST]:
     return [e]
 
 
+def dispatch_table_names(idx, base: ClassInfo) -> Tuple[str, str]:
+    """(table consulted when the operator is the first operand, table consulted when it is the second), read off the
+    handler lookup `getattr(cls, TABLE[func])` that __torch_function__ returns in either case - whatever they are called."""
+    fn = base.methods.get("__torch_function__")
+    if fn is None:
+        raise AnalysisError("LinearOperator.__torch_function__ not found")
+    params = fn.params()
+    cls_p = params[0]
+    args_p = params[3] if len(params) > 3 else "args"
+    names = []
+    for first in (True, False):
+        pe = _PE(first, cls_p, args_p, fn.module)
+        try:
+            pe.run(fn.body(), {})
+        except Unsupported as e:
+            raise AnalysisError(f"__torch_function__ ({'operator first' if first else 'operator second'}): not evaluable: {e}")
+        r = pe.ret
+        t = None
+        # the table of an operand order is the one whose membership decides acceptance (the guard); the lookup is then
+        # CHECKED against it (T3).  Fall back to the lookup when no membership guard is recognisable.
+        func_p = params[1]
+        for g in pe.guards:
+            for d_ in _disjuncts(g):
+                c_ = d_.operand if isinstance(d_, ast.UnaryOp) and isinstance(d_.op, ast.Not) else d_
+                if isinstance(c_, ast.Compare) and len(c_.ops) == 1 and isinstance(c_.ops[0], (ast.NotIn, ast.In)) \
+                        and norm(c_.left) == func_p and isinstance(c_.comparators[0], ast.Name) and c_.comparators[0].id in fn.module.globals_:
+                    t = t or c_.comparators[0].id
+        if t is None and isinstance(r, ast.Call) and isinstance(r.func, ast.Call) and isinstance(r.func.func, ast.Name) and r.func.func.id == "getattr" \
+                and len(r.func.args) == 2 and isinstance(r.func.args[1], ast.Subscript) and isinstance(r.func.args[1].value, ast.Name):
+            t = r.func.args[1].value.id
+        if t is None or t not in fn.module.globals_:
+            raise AnalysisError(f"__torch_function__: handler lookup getattr(cls, TABLE[func]) not found in the "
+                                f"{'operator-first' if first else 'operator-second'} case (returns `{short(r) if r is not None else None}`)")
+        names.append(t)
+    if names[0] == names[1]:
+        raise AnalysisError(f"__torch_function__ uses the same table {names[0]} for both operand orders")
+    return names[0], names[1]
+
+
 def check_torch_function(idx, rep: Report, base: ClassInfo):
     rep.rule("C15.T3", "__torch_function__ routes by operand position, by method name, and refuses unknown functions", floor=7)
     fn = base.methods.get("__torch_function__")
@@ -700,7 +770,8 @@ def check_torch_function(idx, rep: Report, base: ClassInfo):
     if not any(isinstance(x, ast.Call) and isinstance(x.func, ast.Name) and x.func.id == "isinstance"
                and len(x.args) == 2 and norm(x.args[0]) == f"{args_p}[0]" and norm(x.args[1]) == cls_p for x in ast.walk(fn.node)):
         raise AnalysisError("__torch_function__: no test isinstance(args[0], cls) - the operand order is not decided by position")
-    for first, table, order in ((True, "_HANDLED_FUNCTIONS", "operator first"), (False, "_HANDLED_SECOND_ARG_FUNCTIONS", "operator second")):
+    t_first, t_second = dispatch_table_names(idx, base)
+    for first, table, order in ((True, t_first, "operator first"), (False, t_second, "operator second")):
         pe = _PE(first, cls_p, args_p, fn.module)
         try:
             pe.run(fn.body(), {})
